@@ -31,15 +31,13 @@ def clause_engine_reorg(R, F, CG):
         return
     writes = first_write_blocks(fn)
     R.ob(len(writes) >= 1, "DOM-before", fn.where(), "DOM-before|engine.reorg|write", "engine.reorg performs no write_fn call")
-    # validator
-    req = [c for c in fn.calls() if (c.method or "") == "require_no_waiting_txes" and not fn.is_cleanup(c.bb)]
+    # validator: a block-boundary check (validator call with propagated result, or an inline waiting-count guard) dominates every write
+    import enginerules as ER
+    em = ER.engine_methods(F)
     for w in writes:
-        R.ob(bool(req) and all(fn.dominates(r.bb, w.bb) for r in req[:1]), "DOM-before", w.where(),
-             "DOM-before|engine.reorg|require_no_waiting_txes", "require_no_waiting_txes does not dominate the write in engine.reorg",
-             sample={"rule": "DOM-before", "a": "require_no_waiting_txes", "b": "db.write_fn(reorg)"})
-    for r in req[:1]:
-        R.ob(_err_propagated(fn, r), "ERR-prop", r.where(), "ERR-prop|engine.reorg|require_no_waiting_txes",
-             "the Result of require_no_waiting_txes is dropped")
+        R.ob(ER.validated_at(F, em, {}, fn, w.bb), "DOM-before", w.where(),
+             "DOM-before|engine.reorg|require_no_waiting_txes", "no block-boundary validator (result propagated) dominates the write in engine.reorg",
+             sample={"rule": "DOM-before", "a": "block-boundary validator", "b": "db.write_fn(reorg)"})
 
     def role(a):
         s = show(a)
